@@ -1,23 +1,43 @@
+import os, re
 from vlib.core import Query
+from vlib import slicer
+SRM = "Source/Lib/Common/Codec/EbSystemResourceManager.c"
+def gen_split(wd):
+    src = slicer.read(SRM)
+    out = "/* svt_get_empty_object / svt_get_full_object split verbatim at their svt_block_on_semaphore() line */\n"
+    for fn, a, b, sig_a, sig_b in (("svt_get_empty_object", "get_empty_A", "get_empty_B", "EbFifo *empty_fifo_ptr", "EbFifo *empty_fifo_ptr, EbObjectWrapper **wrapper_dbl_ptr"),
+                                   ("svt_get_full_object", "get_full_A", "get_full_B", "EbFifo *full_fifo_ptr", "EbFifo *full_fifo_ptr, EbObjectWrapper **wrapper_dbl_ptr")):
+        body = slicer.function(src, fn)
+        body = body[body.index("{") + 1:body.rindex("}")]
+        lines = body.split("\n")
+        idx = [i for i, l in enumerate(lines) if "svt_block_on_semaphore(" in l]
+        if len(idx) != 1:
+            raise RuntimeError("%s: expected exactly one semaphore wait" % fn)
+        first = "\n".join(lines[:idx[0]]); second = "\n".join(lines[idx[0] + 1:])
+        if "return_error" not in first.split("\n")[1] and "EbErrorType return_error" not in first:
+            raise RuntimeError("%s: unexpected prologue" % fn)
+        out += "static EbErrorType %s(%s) {%s\n    return return_error;\n}\n" % (a, sig_a, first)
+        out += "static EbErrorType %s(%s) {\n    EbErrorType return_error = EB_ErrorNone;%s\n}\n" % (b, sig_b, second)
+    open(os.path.join(wd, "c23_split.inc"), "w").write(out)
 S = "Source/Lib/Common/Codec/EbSystemResourceManager.c:"
 F = [S + f for f in ("svt_system_resource_ctor", "svt_get_empty_object", "svt_post_full_object", "svt_get_full_object",
                      "svt_get_full_object_non_blocking", "svt_release_object", "svt_object_inc_live_count", "svt_shutdown_process",
                      "svt_muxing_queue_assignation", "svt_release_process")]
 META = {
-    "engine": "E5 nested-yield scheduler",
-    "level_text": "Bounded symbolic exploration of the real EbSystemResourceManager.c under a nested-yield scheduler: objects <=2, 1-2 producers, 1-2 consumers, a shutdown thread, <=5-6 operations with symbolic thread choice, symbolic yields at every mutex/semaphore operation of the real code (nesting depth 1 quick / 2 thorough); monitors for exclusivity, no loss/duplication, posting order, lost wake-up at quiescence, return-to-pool exactly at the last release, shutdown wake-up, and write-after-publication.",
-    "level_note": "EbThreads.c is replaced by a model (held-flag mutex, counting semaphore). Only stack-nested interleavings at synchronisation granularity are explored (A..[B whole]..A); truly overlapping critical sections are outside, with the publication monitor as stand-in. Allocation failure is assumed away here (C16).",
+    "engine": "E5 step scheduler (blocking calls split at their semaphore wait)",
+    "level_text": "Bounded model checking of the real EbSystemResourceManager.c under an explicit scheduler: the two blocking calls are split verbatim at their semaphore wait into register/take halves, every other API call is one step (a single critical section); the scheduler (a solver variable per step) runs any enabled step of a producer, 1-2 consumers or the shutdown thread for K steps -- all interleavings at blocking-point granularity, with 1-2 objects, reference counts 0..2, blocking and polling gets; monitors for exclusivity, no loss/duplication, posting order, lost wake-up at quiescence, return-to-pool exactly at the last release, shutdown wake-up, and write-after-publication.",
+    "level_note": "EbThreads.c is replaced by a model (held-flag mutex, counting semaphore). Critical sections are atomic steps: overlap of two critical sections that do not exclude each other (different mutexes) is outside, with the write-after-publication monitor as stand-in. Allocation failure is assumed away here (C16).",
     "technique": "CBMC bounded symbolic execution of the real SRM with a symbolic nested scheduler (thread choice and yield decisions are solver variables)",
     "assumptions": ["mutex/semaphore semantics as modelled in harness/common/threads_model.h", "constructor succeeds"],
-    "outside": ["non-nested interleavings", "more than 2 objects / 6 operations", "event traces of real encodes"],
+    "outside": ["interleavings inside critical sections", "more than 2 objects / K steps", "more than one producer", "event traces of real encodes"],
     "stubs": ["EbThreads.c -> harness/common/threads_model.h"], "explanation": ""}
-def mk(name, nobj, nprod, ncons, nops, depth, to=900):
-    return Query(name=name, harness="C23/srm.c", defines=["NOBJ=%d" % nobj, "NPROD=%d" % nprod, "NCONS=%d" % ncons, "NOPS=%d" % nops, "DEPTH=%d" % depth],
-                 unwind=8, funcs=F, timeout=to,
-                 bound="%d objects, %d producers, %d consumers, shutdown thread, %d operations, nesting depth %d" % (nobj, nprod, ncons, nops, depth),
-                 what="exclusive hand-out, no loss/duplication, posting order, no lost wake-up, release at last reference, shutdown wakes waiters")
+def mk(name, nobj, ncons, k, to=900):
+    return Query(name=name, harness="C23/srm2.c", defines=["NOBJ=%d" % nobj, "NCONS=%d" % ncons, "K=%d" % k], gen=gen_split,
+                 unwind=k + 3, funcs=F, timeout=to, mem_gb=24,
+                 bound="%d object(s), 1 producer, %d consumer(s), shutdown thread, %d scheduler steps (each step: any enabled half-operation of any thread), references 0..2, blocking and polling gets" % (nobj, ncons, k),
+                 what="exclusive hand-out, no loss/duplication, posting order, no lost wake-up, release at last reference, shutdown wakes waiters, no write after publication")
 def queries(tier):
-    qs = [mk("srm_1obj_1p_2c", 1, 1, 2, 5, 1), mk("srm_2obj_1p_1c", 2, 1, 1, 5, 1)]
+    qs = [mk("srm_1obj_2cons_k7", 1, 2, 7), mk("srm_2obj_1cons_k7", 2, 1, 7)]
     if tier == "thorough":
-        qs += [mk("srm_2obj_1p_2c_d2", 2, 1, 2, 6, 2, 3000), mk("srm_1obj_1p_2c_d2", 1, 1, 2, 6, 2, 3000), mk("srm_2obj_2p_1c", 2, 2, 1, 6, 1, 3000)]
+        qs += [mk("srm_2obj_2cons_k9", 2, 2, 9, 3000), mk("srm_1obj_2cons_k10", 1, 2, 10, 3000)]
     return qs
